@@ -73,8 +73,10 @@ class C(Check):
                     continue
                 viol(dict(clause='crash', kind=ck.get('kind'), frames=ck.get('frames', [])[:2]), dict(program=prog[:2] + ([prog[at]] if at >= 2 else []), crash=r.crash, config='asan'))
                 continue
-            if r.status == 'timeout' and any(('(%s ' % h) in prog[min(len(r.stmts), len(st) - 1)] or ('$' in prog[min(len(r.stmts), len(st) - 1)] and any(('(%s ' % h) in p_ for p_ in prog[:2])) for h in _workload.HEAVY if h != 'pow'):
-                # zeta / gamma-family functions of a large computed argument (Bernoulli numbers, factorials): cost grows with the argument - resource, not memory safety
+            if r.status == 'timeout' and (any(('(%s ' % h) in p_ for p_ in prog for h in _workload.HEAVY if h != 'pow') or any('(pow $' in p_ for p_ in prog)):
+                # (the time-out may have hit the first, silent pass of the program, so the statement is not known: the whole program is scanned)
+                # zeta / gamma-family functions of a large computed argument (Bernoulli numbers, factorials) or a power with a computed, possibly
+                # astronomically large exponent ((2*u)**(64**5)): cost grows with the argument - resource, not memory safety
                 self.count('too-expensive (size-sensitive function of a large argument)')
                 self.inconclusive += 1
                 continue
